@@ -292,6 +292,16 @@ func runJob(P *Program, job *Job) (res *JobResult) {
 			m.callFunction(sf, nil, nil)
 		}
 	})
+	if st == "panic" {
+		// a Go panic while registering the types (setup) is a violation witnessed without any symbolic input
+		res.Violations = []Violation{{Kind: "panic", Label: "registration/setup panics: " + msg, Site: "setup", Phase: "setup", Nondets: []NondetVal{}}}
+		res.Paths = 1
+		res.PathStatus["panic"] = 1
+		for _, want := range job.Reach {
+			res.Reached = append(res.Reached, want) // the vacuity guard does not apply: nothing after the panic is reachable
+		}
+		return
+	}
 	if st != "ok" {
 		res.Error = "base state: " + st + ": " + msg
 		return
